@@ -9,7 +9,8 @@ Local Open Scope N_scope.
    writer configuration and reading the bytes back (whatever follows them) returns exactly `expect`: the ordinates beyond the
    output dimension dropped (M first, then Z), stand-alone linear rings as line strings, a point with NaN X and Y as the empty
    point, the SRID kept iff extended flavour with includeSRID. Ordinates are words, so bit identity is part of the statement. *)
-Theorem C09_wkb_roundtrip : forall c g rest, wf g = true -> wkb_read (wkb_write c g ++ rest) = Ok (expect c g, rest).
+Theorem C09_wkb_roundtrip : forall c g rest, wf g = true -> (depth g <= MAX_DEPTH)%nat ->
+  wkb_read (wkb_write c g ++ rest) = Ok (expect c g, rest).
 Proof. exact wkb_roundtrip. Qed.
 Print Assumptions C09_wkb_roundtrip.
 
@@ -20,13 +21,13 @@ Proof. exact expect_regular. Qed.
 Print Assumptions C09_expect_regular.
 (* ... so with four output dimensions, extended flavour and SRID the cycle is the identity up to the two documented exceptions
    (ideal_shape: stand-alone linear rings become line strings, NaN-XY points become the empty point) *)
-Theorem C09_wkb_identity : forall c g rest, wf g = true -> regular g = true ->
+Theorem C09_wkb_identity : forall c g rest, wf g = true -> (depth g <= MAX_DEPTH)%nat -> regular g = true ->
   c_dim c = D4 -> c_fl c = Ext -> c_srid c = true ->
   wkb_read (wkb_write c g ++ rest) = Ok (ideal_shape g, rest).
 Proof. exact wkb_identity. Qed.
 Print Assumptions C09_wkb_identity.
 (* ... and in every other configuration it is the input with exactly the excess ordinates dropped and, unless extended+SRID, the SRID cleared *)
-Theorem C09_wkb_drop : forall c g rest, wf g = true -> regular g = true ->
+Theorem C09_wkb_drop : forall c g rest, wf g = true -> (depth g <= MAX_DEPTH)%nat -> regular g = true ->
   wkb_read (wkb_write c g ++ rest)
   = Ok (ideal_shape (drop_dims (c_dim c) (if c_srid c && is_ext (c_fl c) then g else clear_srid g)), rest).
 Proof. exact wkb_drop. Qed.
@@ -66,8 +67,16 @@ Theorem C09_own_output_rejected_witness :
 Proof. exact own_output_rejected_witness. Qed.
 Print Assumptions C09_own_output_rejected_witness.
 
+(* the depth hypothesis is necessary: the reader refuses more than MAX_DEPTH = 200 nested geometries (201 levels are written, not read back) *)
+Theorem C09_nesting_limit_witness :
+  wf (nest 200) = true /\ depth (nest 200) = 201%nat /\ wkb_read (wkb_write cfg4 (nest 200)) = Err EFuel /\
+  wkb_read (wkb_write cfg4 (nest 199)) = Ok (nest 199, []).
+Proof. exact nesting_limit_witness. Qed.
+Print Assumptions C09_nesting_limit_witness.
+
 (* the same through HEX text, upper, lower or mixed case *)
-Theorem C09_hex_roundtrip : forall c g s, map upper s = hex_write c g -> wf g = true -> hex_read s = Ok (expect c g, []).
+Theorem C09_hex_roundtrip : forall c g s, map upper s = hex_write c g -> wf g = true -> (depth g <= MAX_DEPTH)%nat ->
+  hex_read s = Ok (expect c g, []).
 Proof. exact hex_case_insensitive. Qed.
 Print Assumptions C09_hex_roundtrip.
 Theorem C09_hex_binary_same_value : forall c g, unhex (hex_write c g) = Some (wkb_write c g).
@@ -84,7 +93,7 @@ Proof. exact unhex_case_insensitive. Qed.
 Print Assumptions C09_unhex_case_insensitive.
 
 (* both byte orders decode to the same value *)
-Theorem C09_byte_order_irrelevant : forall c g, wf g = true ->
+Theorem C09_byte_order_irrelevant : forall c g, wf g = true -> (depth g <= MAX_DEPTH)%nat ->
   wkb_read (wkb_write (with_bo LE c) g) = wkb_read (wkb_write (with_bo BE c) g).
 Proof. exact byte_order_irrelevant. Qed.
 Print Assumptions C09_byte_order_irrelevant.
